@@ -741,22 +741,22 @@ def ack_case(ctx, k):
 
 def run(ctx):
     i = 0
-    for k in range(ctx.pick(300, 4000)):
+    for k in range(ctx.pick(300, 16000)):
         i += 1
         if ctx.mine(i):
             routing_case(ctx, k)
     i += 1
     if ctx.mine(i):
         engine_addresses(ctx)
-    for k in range(ctx.pick(330, 5000)):
+    for k in range(ctx.pick(330, 20000)):
         i += 1
         if ctx.mine(i):
             address_case(ctx, k)
-    for k in range(ctx.pick(44, 600)):
+    for k in range(ctx.pick(44, 3000)):
         i += 1
         if ctx.mine(i):
             mapping_case(ctx, k * 16, 16)
-    for k in range(ctx.pick(70, 1000)):
+    for k in range(ctx.pick(70, 5000)):
         i += 1
         if ctx.mine(i):
             ack_case(ctx, k)
